@@ -86,31 +86,48 @@ Definition mon_lnd_req (dest payreq scid : string) (chans : list lnd_chan) (q : 
   | _ => false
   end.
 
+(* CLTV part ("all invoices (destination, amount, CLTV)"): with a limit the hop delay is the invoice's
+   final delta + 1 and within the limit; without one it is final delta + 1 whenever that fits *)
+Definition mon_cln_cltv (mfc limit : Z) (r : list cln_hop) : bool :=
+  match r with
+  | [h] =>
+      if limit =? 0 then negb ((0 <=? mfc + 1) && (mfc + 1 <? 2^32)) || (h_delay h =? mfc + 1)
+      else (0 <=? mfc) && (h_delay h =? mfc + 1) && (h_delay h <=? limit)
+  | _ => false
+  end.
+
+(* lnd adds 3 blocks (routing.BlockPadding) to the invoice's final delta *)
+Definition mon_lnd_cltv (cltv limit : Z) (q : lnd_req) : bool :=
+  if limit =? 0 then negb ((-2^31 <=? cltv + 4) && (cltv + 4 <? 2^31)) || (rq_cltv_limit q =? cltv + 4)
+  else (0 <=? cltv) && (cltv + 3 <=? limit) && (rq_cltv_limit q =? limit + 1) && (limit + 1 <? 2^31).
+
 Definition c24_monitor (c : c24_case) : bool :=
   match c with
   | CClnRoute inv scid limit obs =>
       match obs with
-      | Some r => mon_cln_route (ci_payee inv) (ci_msat inv) scid r
+      | Some r => mon_cln_route (ci_payee inv) (ci_msat inv) scid r && mon_cln_cltv (ci_min_final inv) limit r
       | None => true
       end
   | CClnPay dec payreq scid limit obs sends _ =>
       match obs, dec with
       | Some sp, Some inv =>
           (sends =? 1) && mon_cln_route (ci_payee inv) (ci_msat inv) scid (sp_route sp) &&
+          mon_cln_cltv (ci_min_final inv) limit (sp_route sp) &&
           (sp_msat sp =? ci_msat inv) && String.eqb (sp_bolt11 sp) payreq && String.eqb (sp_hash sp) (ci_hash inv)
       | Some _, None => false
       | None, _ => sends =? 0
       end
   | CLndBuild payreq inv ch limit obs =>
       match obs with
-      | Some q => mon_lnd_req (li_dest inv) payreq (scid_lnd (lc_id ch)) [ch] q
+      | Some q => mon_lnd_req (li_dest inv) payreq (scid_lnd (lc_id ch)) [ch] q && mon_lnd_cltv (li_cltv inv) limit q
       | None => true
       end &&
       (* refusal when the invoice's destination is not the channel's peer *)
       (String.eqb (li_dest inv) (lc_remote ch) || negb (is_some obs))
   | CLndPay dec chans payreq scid limit obs sends _ =>
       match obs, dec, chans with
-      | Some q, Some inv, Some cs => (sends =? 1) && mon_lnd_req (li_dest inv) payreq scid cs q
+      | Some q, Some inv, Some cs =>
+          (sends =? 1) && mon_lnd_req (li_dest inv) payreq scid cs q && mon_lnd_cltv (li_cltv inv) limit q
       | Some _, _, _ => false
       | None, _, _ => sends =? 0
       end
